@@ -191,7 +191,10 @@ func Replay(verif, repo string, o *Obligation) (confirmed bool, report map[strin
 	}
 	vals, raw, err := modelValues(o, rs)
 	if err != nil {
-		return false, map[string]any{"note": "could not extract model values: " + err.Error(), "solver": firstLines(raw, 5)}
+		// no model (timeout / unknown): the harness still runs its fixed scenarios on the real code
+		vals = map[string]string{}
+		ok, out := runReplay(verif, repo, rs, vals, o.Name)
+		return ok, map[string]any{"note": "no solver model (" + err.Error() + "): only the fixed scenarios of the harness were run", "solver": firstLines(raw, 5), "test": rs.Test, "confirmed": ok, "output": out}
 	}
 	ok, out := runReplay(verif, repo, rs, vals, o.Name)
 	return ok, map[string]any{"inputs": vals, "test": rs.Test, "confirmed": ok, "output": out}
